@@ -1003,6 +1003,24 @@ func genC20(t *rapid.T) CaseC20 {
 		if !wild {
 			added = append(added, "a")
 		}
+		if !wild && rapid.IntRange(0, 11).Draw(t, "scenario") == 0 {
+			// a node entered twice from the same source (edge + branch, or two branches), optionally on a
+			// cycle, compiled in all-predecessor mode: cycle detection must not be fooled by the double entry
+			c.Ops = append(c.Ops, Op20{K: "node", A: "b", Kind: "lambda"}, Op20{K: "node", A: "c", Kind: "lambda"})
+			if rapid.Bool().Draw(t, "entryByEdge") {
+				c.Ops = append(c.Ops, Op20{K: "edge", A: "a", B: "b"})
+			} else {
+				c.Ops = append(c.Ops, Op20{K: "branch", A: "a", Ts: []string{"b", "end"}})
+			}
+			c.Ops = append(c.Ops, Op20{K: "branch", A: "a", Ts: []string{"b", "c"}})
+			c.Ops = append(c.Ops, Op20{K: "edge", A: "b", B: "c"})
+			if rapid.Bool().Draw(t, "cycle") {
+				c.Ops = append(c.Ops, Op20{K: "edge", A: "c", B: "b"})
+			}
+			c.Ops = append(c.Ops, Op20{K: "edge", A: "c", B: "end"})
+			c.Ops = append(c.Ops, Op20{K: "compile", Mode: "dag"})
+			return c
+		}
 		// tidy: references mostly point at nodes that exist, so that a single violation stands alone
 		pickFrom := func(l string) string {
 			if wild || len(added) == 0 || rapid.IntRange(0, 14).Draw(t, "slipF") == 0 {
@@ -1049,9 +1067,23 @@ func genC20(t *rapid.T) CaseC20 {
 						prior = append(prior, o)
 					}
 				}
-				if len(prior) > 0 && rapid.IntRange(0, 5).Draw(t, "dupEdge") == 0 {
+				special := rapid.IntRange(0, 11).Draw(t, "edgeSpecial")
+				if len(prior) > 0 && special <= 1 {
 					// repeat an earlier edge (any of them, not only the first one of its source)
 					c.Ops = append(c.Ops, prior[rapid.IntRange(0, len(prior)-1).Draw(t, "which")])
+				} else if len(prior) > 0 && special == 2 {
+					// close a cycle over an existing edge
+					e := prior[rapid.IntRange(0, len(prior)-1).Draw(t, "which")]
+					if e.A != "start" && e.B != "end" {
+						c.Ops = append(c.Ops, Op20{K: "edge", A: e.B, B: e.A})
+					}
+				} else if len(prior) > 0 && special == 3 && len(added) >= 2 {
+					// a second entry into the target of an existing edge: a branch of the same source
+					e := prior[rapid.IntRange(0, len(prior)-1).Draw(t, "which")]
+					other := added[rapid.IntRange(0, len(added)-1).Draw(t, "otherT")]
+					if e.B != "end" || other != "end" {
+						c.Ops = append(c.Ops, Op20{K: "branch", A: e.A, Ts: []string{e.B, other}})
+					}
 				} else {
 					c.Ops = append(c.Ops, Op20{K: "edge", A: pickFrom("ef"), B: pickTo("et")})
 				}
